@@ -267,15 +267,27 @@ async fn run_mem(case: &C10Case, obs: &mut Obs) {
 			Peer::Ws(ws) => c.texts.extend(ws.drain_texts()),
 			Peer::Http { io, received, eof } => {
 				let mut buf = vec![0u8; 65536];
+				// (with a tiny duplex buffer the server can only write on after the peer has read: read what is there,
+				// let the server run, and go on until nothing more arrives)
 				loop {
-					match io.read(&mut buf).now_or_never() {
-						Some(Ok(0)) => {
-							*eof = true;
-							break;
+					let mut progressed = false;
+					loop {
+						match io.read(&mut buf).now_or_never() {
+							Some(Ok(0)) => {
+								*eof = true;
+								break;
+							}
+							Some(Ok(k)) => {
+								received.extend_from_slice(&buf[..k]);
+								progressed = true;
+							}
+							_ => break,
 						}
-						Some(Ok(k)) => received.extend_from_slice(&buf[..k]),
-						_ => break,
 					}
+					if *eof || !progressed {
+						break;
+					}
+					settle().await;
 				}
 				c.texts.push(String::from_utf8_lossy(received).to_string());
 			}
